@@ -77,7 +77,7 @@ impl Verdicts {
             let s = sig.to_string();
             let n = inner.violation_sigs.entry(s.clone()).or_insert(0);
             *n += 1;
-            if *n == 1 && inner.violations.len() < 20 {
+            if *n == 1 && inner.violations.len() < 60 {
                 inner.violations.push((s, json!({"signature": sig, "case": replay})));
             }
             false
